@@ -95,6 +95,17 @@ def line(c):
     return "ctrbl_call entries=%s rot=%d n=%s" % (fmt.mat(c["entries"]), c["rot"], fmt.mat(c["n"]))
 
 
+def as_mapping(table, pick):
+    """The user's table as the kind of mapping users have: a plain dict, or a dict subclass with a default for missing
+    keys (collections.defaultdict / Counter): an absent combination is still absent."""
+    import collections
+    if pick % 3 == 1:
+        return collections.defaultdict(int, table)
+    if pick % 3 == 2 and all(isinstance(v, int) for v in table.values()):
+        return collections.Counter(table)
+    return table
+
+
 _LOOPS = {}
 
 
@@ -151,6 +162,7 @@ def impl(c):
             return "ok " + call_loop(loop_obj(c["loop"], c.get("order")), c["key"])
         sc = 0.5 if c.get("half") else 1
         table = {tuple(x * sc for x in e[:5]): e[5] for e in c["entries"]}
+        table = as_mapping(table, len(c["entries"]))
         rule = cpl.CTRBLRule(table, add_rotations=bool(c["rot"]))
         if c["kind"] == "table":
             items = sorted([int(round(x / sc)) for x in k] + [v] for k, v in rule.rule_table.items())
@@ -292,7 +304,7 @@ def oracle(c):
         return None
     sc = 0.5 if c.get("half") else 1
     table = {tuple(x * sc for x in e[:5]): e[5] for e in c["entries"]}
-    rule = cpl.CTRBLRule(table, add_rotations=bool(c["rot"]))
+    rule = cpl.CTRBLRule(as_mapping(table, len(c["entries"])), add_rotations=bool(c["rot"]))
     rt = rule.rule_table
     consistent = True
     for k, v in table.items():
